@@ -37,6 +37,12 @@ CPP_RAW_RUNTIME_NAMES = frozenset([
 """ names of the raw codec's runtime that its generated sources use unqualified """
 
 
+def check_cpp_file_name(name):
+    """ the name is written between the quotes of an #include directive """
+    if '"' in name:
+        raise GenerateError("file name '{}' cannot be written in an #include directive".format(name))
+
+
 def check_cpp_names(nodes, _included=None, generated=None, runtime=frozenset(), members=frozenset(), arm_types=False):
     """
     Names the generated C++ resolves in its own scopes first: a schema name equal to one of them compiles and then means
@@ -51,6 +57,7 @@ def check_cpp_names(nodes, _included=None, generated=None, runtime=frozenset(), 
     _included = set() if _included is None else _included
     for node in nodes:
         if isinstance(node, model.Include):
+            check_cpp_file_name(node.name)
             if node.name not in _included:
                 _included.add(node.name)
                 check_cpp_names(node.members, _included, generated, runtime, members, arm_types)
@@ -160,9 +167,13 @@ class GeneratorBase(GeneratorAbc):
     def __init__(self, output_directory="."):
         self.output_dir = output_directory
 
+    def check_file_name(self, base_name):
+        """ A place to refuse a file name the generated text cannot hold. """
+
     def render(self, nodes, base_name):
         """ The files this generator writes for the nodes: [(path, content)]. """
         self.check_nodes(nodes)
+        self.check_file_name(base_name)
 
         rendered = []
         for extension, translator_type in self.top_level_translators.items():
